@@ -387,6 +387,7 @@ def run_sc_commute(case):
     sc, det_sc, sub = sc_scene(case)
     labels = [int(x) for x in sc.labels]
     n = len(labels)
+    skip_if_huge_kron(case, gen.make_catalog(sc, gen.make_catalog(det_sc) if det_sc is not None else None))
     A = gen.make_catalog(sc, gen.make_catalog(det_sc) if det_sc is not None else None)
     B = gen.make_catalog(sc, gen.make_catalog(det_sc) if det_sc is not None else None)
     props = list(A.properties)
@@ -515,6 +516,19 @@ def run_sc_commute(case):
     case.note('sc_children_scalar' if scalar else 'sc_children_nonscalar')
     case.note('properties_compared_cached', ncached)
     case.note('properties_compared_first_evaluated_on_child', nfirst)
+
+
+def skip_if_huge_kron(case, cat, limit=120.0):
+    """Cost bound only: near-zero Kron denominators (undetected / over-subtracted sources) give Kron apertures of
+    thousands of pixels whose exact masks take seconds each.  Such scenes are skipped and counted."""
+    try:
+        size = (np.atleast_1d(cat.kron_radius.value) * np.atleast_1d(cat.semimajor_sigma.value)
+                * float(cat.kron_params[0]))
+    except Exception:  # noqa: BLE001
+        return
+    size = size[np.isfinite(size)]
+    if size.size and float(size.max()) > limit:
+        case.skip('kron aperture larger than 120 px (cost bound)')
 
 
 def _note_axes(case, sc, det_sc=None):
@@ -671,6 +685,7 @@ def run_sc_independence(case):
 
     def fresh():
         return gen.make_catalog(sc, gen.make_catalog(det_sc) if det_sc is not None else None)
+    skip_if_huge_kron(case, fresh())
     P = fresh()
     _note_axes(case, sc, det_sc)
     props = list(P.properties)
